@@ -64,6 +64,9 @@ func (v DenseIntVector) AT(i int) Int {
   return Int{&v[i]}
 }
 func (v DenseIntVector) APPEND(w DenseIntVector) DenseIntVector {
+  // v might be a slice of a longer vector, do not
+  // overwrite the elements behind it
+  v = v[:len(v):len(v)]
   return append(v, w...)
 }
 func (v DenseIntVector) ToDenseIntMatrix(n, m int) *DenseIntMatrix {
@@ -114,12 +117,18 @@ func (v DenseIntVector) Swap(i, j int) {
   v[i], v[j] = v[j], v[i]
 }
 func (v DenseIntVector) AppendScalar(scalars ...Scalar) Vector {
+  // v might be a slice of a longer vector, do not
+  // overwrite the elements behind it
+  v = v[:len(v):len(v)]
   for _, scalar := range scalars {
     v = append(v, scalar.GetInt())
   }
   return v
 }
 func (v DenseIntVector) AppendVector(w Vector) Vector {
+  // v might be a slice of a longer vector, do not
+  // overwrite the elements behind it
+  v = v[:len(v):len(v)]
   for i := 0; i < w.Dim(); i++ {
     v = append(v, w.ConstAt(i).GetInt())
   }
